@@ -4,6 +4,7 @@ from __future__ import annotations
 import itertools
 import json
 import random
+import zlib
 from pathlib import Path
 
 from props import c07
@@ -25,6 +26,11 @@ RULE = (
     "(data replaced through the setter or edited in place; no structural operation in between) and only then the observed queries and the removal run: "
     "they must answer what the model gives for the case's values alone, the selection looks at the attributes AT THE TIME OF THE CALL "
     "(a fixed pattern on a third of the exhaustive part, 50% of the random cases). "
+    "Classes declared late: 1-2 classes of the table (and the classes deriving from them) do not exist yet while the container is being assembled; up to a generated point of the "
+    "history 1-4 read-only queries by the types that exist so far (of_type, the getter; on the container as assembled so far or on another container of the family) are made, "
+    "each late class statement runs only when the program first needs it (an element of it is built, or it is the requested type), its elements are added afterwards: the observed "
+    "queries and the removal must answer what the model gives for the finished container alone, membership is instance-of AT THE TIME OF THE CALL "
+    "(a fixed pattern on a quarter of the exhaustive part, 50% of the random cases, drawn from a stream of its own derived from the case). "
     "Exhaustive part: all containers of <=4 elements x 3 classes x 2 attribute values x all types x filters. "
     "non-trivial = at least one member is an instance of the requested type; distinct by full case."
 )
@@ -37,7 +43,7 @@ EXHAUSTIVE = {"quick": False, "thorough": False}
 NATTR = 3
 
 
-def _build(family, parents):
+def _build(family, parents, late=(), staged=False):
     from cfinterface.components.register import Register
     from cfinterface.components.block import Block
     from cfinterface.components.section import Section
@@ -55,10 +61,32 @@ def _build(family, parents):
         ns["__eq__"] = lambda self, o: isinstance(o, self.__class__) and o.data == self.data
         ns["__hash__"] = None
     Base = type("HBase", (base,), ns)
-    classes = []
-    for i, p in enumerate(parents):
-        classes.append(type(f"K{i}", (Base if p is None else classes[p],), {}))
-    return classes, ccls
+    classes = [None] * len(parents)
+
+    def declare(i):
+        """the class statement of K{i} is executed now (and those of its ancestors, if not yet)"""
+        if classes[i] is None:
+            p = parents[i]
+            classes[i] = type(f"K{i}", (Base if p is None else declare(p),), {})
+        return classes[i]
+
+    for i in range(len(parents)):
+        if i not in late:
+            declare(i)
+    return (classes, ccls, declare) if staged else (classes, ccls)
+
+
+def late_closure(case):
+    """class indices declared late: the listed ones and every class deriving from them (a class statement needs its base)"""
+    lt = case.get("late")
+    if not lt:
+        return set()
+    parents = case["parents"]
+    late = {i for i in lt.get("classes", []) if 0 <= i < len(parents)}
+    for i in range(len(parents)):  # parents precede their children in the tables
+        if parents[i] is not None and parents[i] in late:
+            late.add(i)
+    return late
 
 
 def oid(ident, x):
@@ -182,6 +210,18 @@ def warm_text(case):
             f"then those were edited ({'in place' if w.get('inplace') else 'data setter'}, no structural operation): {'; '.join(eds)}")
 
 
+def late_text(case):
+    late = late_closure(case)
+    if not late:
+        return ""
+    lt = case["late"]
+    qs = [("the getter by " + _thread_name(case, ["of_type", q[1]])[8:-1]) if q[0] == "get_type" else _thread_name(case, q) for q in lt.get("queries", [])
+          if len(q) < 2 or q[1] not in late]
+    return (f"; class(es) {['K%d' % i for i in sorted(late)]} were DECLARED LATE: before their class statements ran, the queries [{', '.join(qs)}] were made on "
+            f"{'another container of the family' if lt.get('scratch') else 'the container as assembled so far (another one if it did not exist yet)'}"
+            f" (not later than before op #{lt.get('at', 0)}); the elements of those classes were built and added afterwards")
+
+
 def overlap_expected(case, exp):
     """what each query of the overlap answers on its own, from the model's expected observation"""
     parents, members = case["parents"], exp["iter_after_get"]
@@ -216,14 +256,15 @@ def _thread_name(case, th):
 
 
 def run_impl(case):
-    classes, ccls = _build(case["family"], case["parents"])
+    late = late_closure(case)
+    classes, ccls, declare = _build(case["family"], case["parents"], late, staged=True)
     elems, ident = {}, {}
 
     def el(i):
         if i not in elems:
             ci, attrs = case["elems"][i]
             attrs = pre.get(i, attrs)  # the values the element holds until the warm-up is over
-            e = classes[ci](data=list(attrs))
+            e = declare(ci)(data=list(attrs))
             e.tag = attrs[0]  # a plain instance attribute (not a property of the class) with the value of a0
             elems[i] = e
             ident[id(e)] = i
@@ -232,8 +273,34 @@ def run_impl(case):
     warm = case.get("warm") or {}
     pre = {int(i): list(a) for i, a in warm.get("pre", [])}
     fuel = c07.fuel_of(case)
+    getter = {"register": "get_registers_of_type", "block": "get_blocks_of_type", "section": "get_sections_of_type"}[case["family"]]
+    lt = case.get("late") or {}
+    early_done = not late
+
+    def early(cont):
+        # first use of the classes that exist so far in queries (results discarded); the late classes are declared
+        # only afterwards, each when the program first needs it (an element of it is built, or it is the requested type)
+        nonlocal early_done
+        early_done = True
+        known = [k for k in range(len(classes)) if classes[k] is not None]
+        if not known:
+            return
+        if cont is None or lt.get("scratch"):
+            cont = ccls(classes[known[0]](data=[None] * NATTR))
+            for k in known[1:]:
+                cont.append(classes[k](data=[None] * NATTR))
+        run_warm({"queries": [q for q in lt.get("queries", []) if len(q) < 2 or not isinstance(q[1], int) or q[1] >= len(classes) or classes[q[1]] is not None]},
+                 cont, classes, classes[known[0]], {}, getter, fuel + len(known))
+
+    def needs_late(ids):
+        return any(i not in elems and case["elems"][i][0] in late for i in ids)
+
+    if not early_done and needs_late([0]):
+        early(None)
     c = ccls(el(0))
-    for op in case["ops"]:
+    for k, op in enumerate(case["ops"]):
+        if not early_done and (k >= lt.get("at", 0) or needs_late(op[1:])):
+            early(c)
         name = op[0]
         if name == "prepend":
             c.preppend(el(op[1]))
@@ -245,12 +312,15 @@ def run_impl(case):
             c.add_after(el(op[1]), el(op[2]))
         elif name == "remove":
             c.remove(el(op[1]))
+    if not early_done:
+        early(c)
+    for i in range(len(classes)):
+        declare(i)
     t = classes[case["type"]] if case["type"] < len(classes) else str
     kwargs = {f"a{k}": v for k, v in case["filter"]}
     if case.get("plain_attr") and "a0" in kwargs:
         # the same filter, naming the plain attribute instead of the property: any attribute may be filtered on
         kwargs = {("tag" if k == "a0" else k): v for k, v in kwargs.items()}
-    getter = {"register": "get_registers_of_type", "block": "get_blocks_of_type", "section": "get_sections_of_type"}[case["family"]]
     remover = {"register": "remove_registers_of_type", "block": "remove_blocks_of_type", "section": "remove_sections_of_type"}[case["family"]]
     out = {}
     try:
@@ -357,7 +427,7 @@ def judge(case, obs, resp):
     if not resp["holds"]:
         exp = resp["expected"]
         bad = [k for k in exp if exp[k] != obs.get(k)]
-        return {"status": "oracle", "why": f"{bad} differ from the list semantics on container {resp['spec_list']}: got { {k: obs.get(k) for k in bad} } expected { {k: exp[k] for k in bad} }" + warm_text(case)}
+        return {"status": "oracle", "why": f"{bad} differ from the list semantics on container {resp['spec_list']}: got { {k: obs.get(k) for k in bad} } expected { {k: exp[k] for k in bad} }" + warm_text(case) + late_text(case)}
     if "overlap" in obs:
         want = overlap_expected(case, resp["expected"])
         bad = [k for k in range(len(want)) if obs["overlap"][k] != want[k]]
@@ -366,7 +436,7 @@ def judge(case, obs, resp):
             k = bad[0]
             return {"status": "oracle", "why": f"overlapping read-only queries {[_thread_name(case, x) for x in ths]} advanced in the order {case['overlap']['sched']}"
                     f"{' (iterators created up front)' if case['overlap'].get('eager') else ''} on container {resp['spec_list']}: query {k} = {_thread_name(case, ths[k])} "
-                    f"gave {obs['overlap'][k]}, alone it gives {want[k]}" + (f" ({len(bad) - 1} more queries differ)" if len(bad) > 1 else "") + warm_text(case)}
+                    f"gave {obs['overlap'][k]}, alone it gives {want[k]}" + (f" ({len(bad) - 1} more queries differ)" if len(bad) > 1 else "") + warm_text(case) + late_text(case)}
     if not resp["agree"]:
         return {"status": "corr", "why": "model/implementation disagree"}
     return {"status": "ok", "why": ""}
@@ -410,6 +480,14 @@ def features(case, obs):
         f.append(f"edited_elements={len(w.get('pre', []))}")
         if any(q[0] == "get" for q in w.get("queries", [])) and any(v is not None for _, v in case["filter"]):
             f.append("same_lookup_before_and_after_edit")
+    late = late_closure(case)
+    if late:
+        f.append(f"late_classes={len(late)}")
+        if any(case["elems"][i][0] in late for i in _member_ids(case)):
+            f.append("member_of_late_class")
+        t = case["type"]
+        if t < len(case["parents"]) and t not in late and any(len(q) > 1 and q[1] == t for q in case["late"].get("queries", [])):
+            f.append("requested_type_queried_before_late_declaration")
     ov = case.get("overlap")
     if ov:
         f.append(f"overlap_queries={len(ov['threads'])}")
@@ -544,6 +622,53 @@ def random_warm(rng: random.Random, case, nvals):
     return {"pre": [[i, pre[i]] for i in sorted(pre)], "queries": queries, "inplace": rng.random() < 0.5}
 
 
+def _case_rng(case, salt):
+    """a random stream of its own for a new dimension, derived from the case (the streams of the other dimensions stay as they are)"""
+    return random.Random(zlib.crc32((salt + json.dumps(case, sort_keys=True)).encode()))
+
+
+def late_pattern(count, n, t):
+    """fixed late declarations for a quarter of the exhaustive part (table [None, 0, None]: K1 derives from K0)"""
+    if count % 4 != 2:
+        return None
+    j = count // 4
+    late = [[1], [1], [2], [0], [1, 2]][j % 5]
+    known = [k for k in range(3) if k not in late and not (k == 1 and 0 in late)]
+    qt = t if t in known else known[(j // 5) % len(known)]
+    queries = [[["of_type", qt]], [["get_type", qt]], [["of_type", qt], ["get_type", known[0]], ["len"]], [["iter"], ["get_type", qt]]][(j // 5) % 4]
+    return {"classes": late, "queries": queries, "at": (j // 20) % (n + 1), "scratch": (j // 3) % 3 == 0}
+
+
+def random_late(rng: random.Random, case):
+    parents = case["parents"]
+    n = len(parents)
+    late = set()
+    # mostly classes that derive from another one (a derived model declared later), sometimes roots
+    derived = [i for i in range(n) if parents[i] is not None]
+    for _ in range(rng.randrange(1, 3)):
+        late.add(rng.choice(derived) if derived and rng.random() < 0.7 else rng.randrange(n))
+    for i in range(n):
+        if parents[i] is not None and parents[i] in late:
+            late.add(i)
+    known = [i for i in range(n) if i not in late]
+    if not known:
+        return None
+    t = case["type"]
+    queries = []
+    for _ in range(rng.randrange(1, 5)):
+        r = rng.random()
+        k = t if t in known and rng.random() < 0.6 else rng.choice(known + [n])
+        if r < 0.45:
+            queries.append(["of_type", k])
+        elif r < 0.85:
+            queries.append(["get_type", k])
+        elif r < 0.93:
+            queries.append(["iter"])
+        else:
+            queries.append(["len"])
+    return {"classes": sorted(late), "queries": queries, "at": rng.randrange(len(case["ops"]) + 1), "scratch": rng.random() < 0.3}
+
+
 def exhaustive_cases(family, maxn):
     parents = [None, 0, None]  # K1 is a subclass of K0, K2 unrelated
     count = 0
@@ -557,7 +682,10 @@ def exhaustive_cases(family, maxn):
                         case = {"family": family, "parents": parents, "elems": elems, "ops": ops, "type": t, "filter": flt}
                         ov = overlap_pattern(count, n, t)
                         wm = warm_pattern(count, n, elems, t, flt)
+                        lt = late_pattern(count, n, t)
                         count += 1
+                        if lt:
+                            case["late"] = lt
                         if ov:
                             case["overlap"] = ov
                         if wm:
@@ -596,6 +724,11 @@ def random_case(rng: random.Random, family):
         wm = random_warm(rng, case, nvals)
         if wm:
             case["warm"] = wm
+    rng2 = _case_rng(case, "late")
+    if rng2.random() < 0.5:
+        lt = random_late(rng2, case)
+        if lt:
+            case["late"] = lt
     return case
 
 
@@ -663,6 +796,17 @@ def shrinks(case):
         yield {**case, "filter": case["filter"][:i] + case["filter"][i + 1 :]}
     if case["parents"] != [None, 0, None] and all(e[0] < 3 for e in case["elems"]) and case["type"] <= 3:
         yield {**case, "parents": [None, 0, None]}
+    lt = case.get("late")
+    if lt:
+        yield {k: v for k, v in case.items() if k != "late"}
+        for i in range(len(lt.get("classes", []))):
+            if len(lt["classes"]) > 1:
+                yield {**case, "late": {**lt, "classes": lt["classes"][:i] + lt["classes"][i + 1 :]}}
+        for i in range(len(lt.get("queries", []))):
+            if len(lt["queries"]) > 1:
+                yield {**case, "late": {**lt, "queries": lt["queries"][:i] + lt["queries"][i + 1 :]}}
+        if lt.get("scratch"):
+            yield {**case, "late": {**lt, "scratch": False}}
     wm = case.get("warm")
     if wm:
         yield {k: v for k, v in case.items() if k != "warm"}
